@@ -130,10 +130,13 @@ pub fn alphabet() -> Vec<Call> {
     let long_bad = format!("{}#", "0".repeat(5000));
     let long_ws = format!("1{}+1", " ".repeat(5000));
     let mut v = v;
+    // deep nesting (a nesting or recursion counter that is shared between threads or not reset on an error path)
+    let deep = format!("{}1", "-".repeat(150));
     for (ev, at) in [("f64", f(0.0)), ("i64", "0".to_string()), ("decimal", d("0")), ("complex", cp(0.0, 0.0)), ("number", "I0".to_string())] {
         v.push(c(ev, &long_ok, &at));
         v.push(c(ev, &long_bad, &at));
         v.push(c(ev, &long_ws, &at));
+        v.push(c(ev, &deep, &at));
     }
     v
 }
@@ -847,7 +850,16 @@ fn e_sched(cx: &RunCtx) {
         scenarios.push(vec![vec![by("i64", "med(30,10,20)", 0)], vec![by("i64", "@+1", 0)], vec![by("i64", "@+1", 1)]]);
     }
     let bound = if quick { 2 } else { 3 };
-    for threads in scenarios {
+    // two deeply nested inputs at the same time, per evaluator: hundreds of scheduling points each, so with one
+    // preemption fewer than the other scenarios (every point at which the first thread can be suspended while
+    // the second runs to completion, and the reverse)
+    let deep_expr = format!("{}1", "-".repeat(150));
+    let mut scenarios: Vec<(Vec<Vec<Call>>, usize)> = scenarios.into_iter().map(|s| (s, bound)).collect();
+    for ev in ["f64", "i64", "decimal", "complex", "number"] {
+        let dc = a.iter().find(|c| c.ev == ev && c.expr == deep_expr).unwrap().clone();
+        scenarios.push((vec![vec![dc.clone()], vec![dc]], bound - 1));
+    }
+    for (threads, bound) in scenarios {
         let t0 = Instant::now();
         // isolated results, computed on this thread without any scheduler installed
         let iso: Vec<Vec<String>> = threads.iter().map(|cs| cs.iter().map(exec).collect()).collect();
